@@ -62,3 +62,24 @@ def masked_fill_after_reset(x, block=4):
         part[big] = np.log(x[lo:lo + k][big])
         out[lo:lo + k] = part + 1.0
     return out
+
+
+def threshold_rows_reads_whole_scratch(D, d, scratch, block=4):
+    """the scratch array is handed in by the caller; the last, shorter block leaves stale rows that are read again"""
+    out = []
+    for lo in range(0, D.shape[0], block):
+        rows = D[lo: lo + block]
+        np.less_equal(rows, d, out=scratch[: rows.shape[0]])
+        for i, row in enumerate(scratch, start=lo):
+            out.append((i, int(row.sum())))
+    return out
+
+
+def threshold_rows_reads_written_part(D, d, scratch, block=4):
+    out = []
+    for lo in range(0, D.shape[0], block):
+        rows = D[lo: lo + block]
+        np.less_equal(rows, d, out=scratch[: rows.shape[0]])
+        for i, row in enumerate(scratch[: rows.shape[0]], start=lo):
+            out.append((i, int(row.sum())))
+    return out
